@@ -236,6 +236,9 @@ impl Story {
                     }
 
                     self.reset_errors();
+                    // Delivered to the handler: drop the warnings too, otherwise
+                    // every later continue would hand them over again.
+                    self.get_state_mut().reset_warnings();
                 }
                 // No error handler: throw for errors, silently discard warnings
                 None => {
